@@ -14,6 +14,7 @@ open KsVerif
 def judge (fam payload impl : String) : Verdict :=
   match fam with
   | "progress" => Progress.judge payload impl
+  | "http2.conv" => Http.Driver.judgeH2 payload impl
   | "http.conv" => Http.Driver.judgeConv payload impl
   | "amqp.conv" => Amqp.Driver.judgeConv payload impl
   | "amqp.raw" => Amqp.Driver.judgeRaw payload impl
